@@ -17,6 +17,9 @@ REG = {
     "arccons": ("translate_arccons", "translate", "C05_gen",
                 "harness/translate_arccons.py + translate_enumcore.py (objective / constraint assembly loops of "
                 "ArcBasedRoutingProblem; coq/theories/PyArcCons.v, sparse.coo_array at its dense meaning)"),
+    "seqcons": ("translate_seqcons", "translate", "C07_gen",
+                "harness/translate_seqcons.py + translate_enumcore.py (objective / linear / quadratic constraint assembly loops of "
+                "SequenceBasedRoutingProblem; coq/theories/PySeqCons.v, sparse.coo_array at its dense meaning)"),
 }
 
 
